@@ -1097,7 +1097,9 @@ def _brute_cartesian(b, data):
 
 
 SESSION_OPS = ("index", "index_int", "index_array", "masked", "cartesian", "bbox", "area", "origins", "midpoints", "to_dict",
-               "location_of", "edit_area", "edit_cartesian", "edit_dict", "edit_origins", "edit_index_array")
+               "location_of", "edit_area", "edit_cartesian", "edit_dict", "edit_origins", "edit_index_array",
+               # round 6: returned arrays edited by the caller, caller-owned input arrays re-used after an in-place change, call forms
+               "edit_midpoints", "edit_masked", "edit_bbox", "reuse_arrays", "index_keyword", "index_one_element")
 
 
 def check_session(run, drv, pend, g, rng, steps, ops=None):
@@ -1157,11 +1159,48 @@ def check_session(run, drv, pend, g, rng, steps, ops=None):
                         fail(i, f"get_index_of(arrays) = {numpy.asarray(got).tolist()}, a fresh region gives {exp}")
                     if op == "edit_index_array" and isinstance(got, numpy.ndarray) and got.size:
                         got[...] = 0                      # the caller scribbles over the returned index array
-                elif op == "masked":
-                    got = [bool(v) for v in numpy.asarray(r.get_masked([q[0] for q in pts], [q[1] for q in pts])).ravel().tolist()]
+                elif op in ("masked", "edit_masked"):
+                    mres = r.get_masked([q[0] for q in pts], [q[1] for q in pts])
+                    got = [bool(v) for v in numpy.asarray(mres).ravel().tolist()]
                     exp = [_expected_cell(b0, lo, la) is None for lo, la in pts]
                     if got != exp:
                         fail(i, f"get_masked = {got}, a fresh region gives {exp}")
+                    if op == "edit_masked" and isinstance(mres, numpy.ndarray) and mres.size:
+                        mres[...] = ~mres if mres.dtype == bool else 1
+                elif op == "edit_bbox":
+                    bb_ = r.get_bbox()
+                    if isinstance(bb_, (list, numpy.ndarray)):      # a mutable bounding box handed out: the caller scribbles on it
+                        for t_ in range(len(bb_)):
+                            bb_[t_] = 0.0
+                elif op == "reuse_arrays":
+                    # the caller keeps ONE pair of coordinate arrays, overwrites it in place and asks again
+                    fin = [q for q in pts if q[0] == q[0] and q[1] == q[1]] or [(0.0, 0.0)]
+                    if "own" not in held or len(held["own"][0]) != len(fin):
+                        held["own"] = (numpy.zeros(len(fin)), numpy.zeros(len(fin)))
+                    held["own"][0][:] = [q[0] for q in fin]
+                    held["own"][1][:] = [q[1] for q in fin]
+                    snap = (held["own"][0].copy(), held["own"][1].copy())
+                    got = [int(v) for v in numpy.asarray(r.get_index_of(held["own"][0], held["own"][1])).ravel().tolist()]
+                    exp = [v for v in (_expected_cell(b0, lo, la) for lo, la in fin) if v is not None]
+                    if got != exp:
+                        fail(i, f"get_index_of on the caller's re-used (overwritten in place) arrays = {got}, the new content lies in {exp}")
+                    if not (numpy.array_equal(held["own"][0], snap[0]) and numpy.array_equal(held["own"][1], snap[1])):
+                        fail(i, "get_index_of modified the caller's coordinate arrays")
+                elif op in ("index_keyword", "index_one_element"):
+                    for lon, lat in pts:
+                        if not (lon == lon and lat == lat):
+                            continue
+                        exp = _expected_cell(b0, lon, lat)
+                        if op == "index_keyword":
+                            got = r.get_index_of(lons=float(lon), lats=float(lat))
+                            got = None if numpy.size(got) == 0 else int(got)
+                        else:
+                            form = numpy.random.default_rng(sd).integers(0, 2)
+                            arg = ([float(lon)], [float(lat)]) if form == 0 else (numpy.array([lon]), numpy.array([lat]))
+                            res_ = numpy.asarray(r.get_index_of(*arg)).ravel().tolist()
+                            got = None if len(res_) == 0 else (int(res_[0]) if len(res_) == 1 else res_)
+                        if got != exp:
+                            fail(i, f"get_index_of ({op}) of ({lon!r},{lat!r}) = {got}, a fresh region gives {exp}")
                 elif op in ("cartesian", "edit_cartesian"):
                     data = numpy.random.default_rng(sd).uniform(1, 2, n)
                     exp = _brute_cartesian(b0, data)
@@ -1196,9 +1235,12 @@ def check_session(run, drv, pend, g, rng, steps, ops=None):
                         fail(i, "origins() differs from the (west, south) corners of a fresh region")
                     if op == "edit_origins" and isinstance(got, numpy.ndarray) and got.size:
                         got[...] = 0.0
-                elif op == "midpoints":
-                    if not numpy.array_equal(numpy.asarray(r.midpoints(), dtype=float), mid0):
+                elif op in ("midpoints", "edit_midpoints"):
+                    mp_ = r.midpoints()
+                    if not numpy.array_equal(numpy.asarray(mp_, dtype=float), mid0):
                         fail(i, "midpoints() differs from what a fresh region returns")
+                    if op == "edit_midpoints" and isinstance(mp_, numpy.ndarray) and mp_.size:
+                        mp_[...] = 0.0
                 elif op in ("to_dict", "edit_dict"):
                     d = r.to_dict()
                     if [(q["lon"], q["lat"]) for q in d["polygons"]] != [(float(v[0]), float(v[1])) for v in b0[:, :2]]:
@@ -1289,6 +1331,130 @@ def check_big(run, drv, pend, rng, seed=None):
     if bb != [-180.0, 180.0, E[-1], E[0]]:
         run.oracle_failure(case, f"bounding box of the > 2^16-cell covering grid is {bb}")
     run.case(case, ("big", seed))
+
+
+SIZE_THRESHOLDS = (500, 2000, 5000, 65536)
+
+# Call forms of get_index_of on which the UNCHANGED code misbehaves and that wait for a decision (genuine-defect candidate, see
+# notes/C17.md): not generated while listed; delete the entry and `index_other_forms` of the session generates them.
+AWAITING_DECISION = [
+    dict(id="W-C17-1", cls="get_index_of-tuple-0d-numpy-scalar",
+         what="QuadtreeGrid2D.get_index_of dispatches on isinstance(lons, (list, numpy.ndarray)) / (int, float): tuples, numpy.float32 "
+              "and numpy integer scalars fall through and return None (no cell, no error), a 0-d array raises TypeError: len() of unsized "
+              "object. Generated and judged: Python float / int scalars, numpy.float64 scalars, lists, ndarrays, 1-element lists / arrays, "
+              "positional and keyword form. Proposed patch: `lons, lats = numpy.atleast_1d(lons), numpy.atleast_1d(lats)` for everything "
+              "that is not a Python / numpy scalar, and numbers.Real for the scalar branch."),
+]
+
+
+def long_points(rng, g, n):
+    """n query points for a LONG array call: a filler of ordinary interior points and, at the very start, around every size threshold
+    below n and at the end, the interesting ones: points exactly on horizontal / vertical tile edges (cell corners, latitude 0.0,
+    a cell's south / north bound), a hair (1 ulp, 1e-13, 4e-12, 1e-9 degrees) on either side of an edge, duplicates, and points
+    in no cell (antimeridian, beyond the latitude limits, gaps)"""
+    b = qt_bounds(g.region)
+    m = len(b)
+    sel = b[[rng.randrange(m) for _ in range(min(m, 12))]]
+    special = []
+    for w, s_, e, n_ in sel.tolist():
+        mx, my = (w + e) / 2, (s_ + n_) / 2
+        special += [(w, s_), (w, n_), (e, s_), (mx, s_), (mx, n_), (w, my), (e, my)]
+        for d in (1e-13, 4e-12, 1e-9):
+            special += [(e - d, my), (w - d, my), (w + d, my), (mx, s_ - d), (mx, s_ + d), (mx, n_ - d)]
+        special += [(next_down(e), my), (next_down(w), my), (mx, next_down(s_)), (mx, next_down(n_)), (mx, next_up(s_))]
+    special += [(0.0, 0.0), (10.0, 0.0), (-10.0, -0.0), (0.0, 10.0), (-0.0, -10.0), (180.0, 10.0), (-180.0, 10.0), (181.0, 0.0),
+                (360.0, 0.0), (10.0, 86.0), (10.0, -86.0), (5e-324, 5e-324), (-5e-324, -5e-324), (45.0, 66.51326044311186)]
+    special += [special[0], special[3], special[3]]                       # duplicates
+    fill_src = [((w + e) / 2 + (e - w) * f, (s_ + n_) / 2 + (n_ - s_) * f2) for w, s_, e, n_ in sel.tolist()
+                for f in (-0.25, 0.0, 0.3) for f2 in (-0.3, 0.0, 0.2)]
+    pts = [fill_src[i % len(fill_src)] for i in range(n)]
+    spots = [0, 1, 2, n - 1, n - 2, n // 2]
+    for T in SIZE_THRESHOLDS + (131072,):
+        spots += [T - 1, T, T + 1, T // 2]
+    spots = [i for i in spots if 0 <= i < n]
+    k = 0
+    for i in spots + list(range(3, min(n, 3 + len(special)))):
+        pts[i] = special[k % len(special)]
+        k += 1
+    return [(float(a), float(c)) for a, c in pts]
+
+
+def check_long_arrays(run, drv, pend, g, rng, n, pts=None, seed=None):
+    """SIZE THRESHOLDS of the array lookups: one call with n points (list or ndarray, positional or by keyword) must give, point for
+    point, what the same points give one at a time / in small pieces (= containment in the implementation's own bounds), the
+    interesting points sitting in EARLY positions and around 500 / 2000 / 5000 / 2^16; get_masked on the same arrays; the inputs
+    bit-for-bit unchanged; the model on a sample"""
+    r = g.region
+    b = qt_bounds(r)
+    import random as _random
+    if seed is None:
+        seed = rng.randrange(1 << 30)
+    rng = _random.Random(seed)          # the points are a function of (grid, n, seed): replayable without storing 10^5 points
+    pts = long_points(rng, g, n) if pts is None else pts
+    n = len(pts)
+    lons = numpy.array([q[0] for q in pts], dtype=float)
+    lats = numpy.array([q[1] for q in pts], dtype=float)
+    # expectation, vectorised over cells (first listed cell containing the point), independent of the implementation's lookup
+    exp = numpy.full(n, -1, dtype=numpy.int64)
+    for j in range(len(b) - 1, -1, -1):
+        inside = (lons >= b[j, 0]) & (lons < b[j, 2]) & (lats >= b[j, 1]) & (lats < b[j, 3])
+        exp[inside] = j
+    want = exp[exp >= 0].tolist()
+    small = dict(kind=g.kind, params=g.params, check="long", n=n, seed=seed)
+    run.count(f"long-array:{'>2^16' if n > 65536 else '>5000' if n > 5000 else '>2000' if n > 2000 else '>500' if n > 500 else 'short'}")
+    forms = [("ndarray", lambda: r.get_index_of(lons.copy(), lats.copy())), ("list", lambda: r.get_index_of(lons.tolist(), lats.tolist()))]
+    if n <= 6000:
+        forms.append(("keyword", lambda: r.get_index_of(lons=lons.copy(), lats=lats.copy())))
+    if n > 20000:
+        forms = forms[:1] if rng.random() < 0.5 else forms[1:2]
+    for name, f in forms:
+        try:
+            got = [int(v) for v in numpy.asarray(f()).ravel().tolist()]
+        except Exception as ex:
+            got = f"raised {type(ex).__name__}: {ex}"
+        if got != want:
+            where = "?"
+            if isinstance(got, list):
+                # first point whose cell differs (unlocated points are dropped from the result)
+                loc_pos = numpy.flatnonzero(exp >= 0)
+                m_ = min(len(got), len(want))
+                d_ = next((t for t in range(m_) if got[t] != want[t]), m_)
+                if d_ < len(loc_pos):
+                    i0 = int(loc_pos[d_])
+                    where = f"first difference at position {i0}: point ({lons[i0]!r}, {lats[i0]!r}) lies in cell {int(exp[i0])}"
+                else:
+                    where = f"{len(got)} indices for {len(want)} located points"
+            run.oracle_failure(dict(small, form=name),
+                               f"get_index_of({name} of {n} points) differs from the per-point containment in the cells' bounds — {where}; "
+                               f"{str(got)[:80]}")
+            return
+    # caller-owned arrays: unchanged by the call; changed IN PLACE by the caller, the next call answers for the new content
+    a_lon, a_lat = lons.copy(), lats.copy()
+    try:
+        if n > 20000:           # the very long call is made once (time); the caller-owned-array checks run on the shorter ones
+            raise StopIteration
+        r.get_index_of(a_lon, a_lat)
+        if not (numpy.array_equal(a_lon, lons, equal_nan=True) and numpy.array_equal(a_lat, lats, equal_nan=True)):
+            run.oracle_failure(small, "get_index_of modified the coordinate arrays it was given")
+        a_lon[:] = lons[::-1]
+        a_lat[:] = lats[::-1]
+        got2 = [int(v) for v in numpy.asarray(r.get_index_of(a_lon, a_lat)).ravel().tolist()]
+        if got2 != exp[::-1][exp[::-1] >= 0].tolist():
+            run.oracle_failure(small, f"the caller reversed its coordinate arrays in place ({n} points): the second get_index_of call does "
+                                      f"not answer for the new content")
+        m = numpy.asarray(r.get_masked(lons.copy(), lats.copy())).ravel()
+        if [bool(v) for v in m.tolist()] != (exp < 0).tolist():
+            run.oracle_failure(small, f"get_masked on {n} points is not True exactly where no cell contains the point")
+    except StopIteration:
+        pass
+    except Exception as ex:
+        run.oracle_failure(small, f"array lookups on {n} points raised {type(ex).__name__}: {ex}")
+    run.case(None, ("long", _pkey(g), n))
+    idx = list(range(min(n, 40))) + [i for T in SIZE_THRESHOLDS for i in (T - 1, T, T + 1) if i < n]
+    units = [to_unit(lons[i], lats[i], g.D) for i in idx]
+    if len(g.keys) <= 2000:
+        pend.append(("locate", g, dict(small, op="c17_locate", what="long-array sample"),
+                     drv.ask(f"c17_locate {','.join(g.keys)} {pts_arg(units)}"), [None if exp[i] < 0 else int(exp[i]) for i in idx]))
 
 
 def _try_build(run, kind, params):
@@ -1502,6 +1668,10 @@ def special_points(rng, D):
             out.append((lon, lat))
     nan = float("nan")
     out += [(nan, 10.0), (10.0, nan), (nan, nan), (math.inf, 0.0), (0.0, math.inf), (-math.inf, -math.inf)]
+    # signed zeros and subnormals on / next to the equator and the prime meridian (both are tile edges of every grid); longitudes
+    # a full turn away (no wrap-around: they are in no cell)
+    out += [(10.0, -0.0), (-0.0, -0.0), (5e-324, 5e-324), (-5e-324, -5e-324), (10.0, 5e-324), (10.0, -5e-324), (360.0, 10.0),
+            (540.0, 0.0), (-360.0, 0.0), (float(numpy.float32(12.3)), float(numpy.float32(45.6)))]
     return out
 
 
@@ -1610,6 +1780,7 @@ def run_grid(run, drv, pend, g, rng, budget, partition_expected, prefix_free=Tru
 def run(run, rng, tier):
     import time
     drv, pend = Driver(), []
+    run.extra["awaiting_decision"] = [f"{w['id']} ({w['cls']}): {w['what']}" for w in AWAITING_DECISION]
     thorough = tier == "thorough"
     t0 = [time.time()]
     sect = run.extra.setdefault("section_s", {})
@@ -1638,6 +1809,11 @@ def run(run, rng, tier):
         pend.append(("refine", g, _case(g, check="single-keys", op="c17_single"), drv.ask(f"c17_single {z}"), g.keys))
         budget = (len(g.keys) * 17 + 200) if z <= (5 if thorough else 4) else (1500 if thorough else 250)
         run_grid(run, drv, pend, g, rng, budget, True, cart_limit=CL)
+        if z in (2, 3):
+            for nlong in ((501, 2003) if z == 2 else (5007,)):
+                guarded(run, g, "long", check_long_arrays, run, drv, pend, g, rng, nlong)
+        if z == 2:     # once per run: more than 2^16 points (and 2^17 in the thorough tier) on a 16-cell grid
+            guarded(run, g, "long", check_long_arrays, run, drv, pend, g, rng, 131075 if thorough else 65539)
     flush(run, drv, pend)
     drv, pend = Driver(), []
     lap("single-resolution")
@@ -1662,6 +1838,8 @@ def run(run, rng, tier):
         run.count("grid-catalog-" + kind)
         check_refinement(run, drv, pend, g)
         guarded(run, g, "selfgrid", check_selfgrid, run, drv, pend, g)
+        if len(g.keys) <= 400 and rng.random() < 0.35:
+            guarded(run, g, "long", check_long_arrays, run, drv, pend, g, rng, rng.choice([503, 777, 2001, 5003]))
         run_grid(run, drv, pend, g, rng, 500 if thorough else 120, True, cart_limit=CL)
         # the events themselves as queries: each is located in the leaf that counted it
         if ev:
@@ -1683,6 +1861,8 @@ def run(run, rng, tier):
         sk = sorted(set(keys))
         pf = len(set(keys)) == len(keys) and not any(sk[j + 1].startswith(sk[j]) for j in range(len(sk) - 1))
         run_grid(run, drv, pend, g, rng, 300 if thorough else 150, False, prefix_free=pf, cart_limit=CL)
+        if len(g.keys) <= 400 and i % 3 == 0:
+            guarded(run, g, "long", check_long_arrays, run, drv, pend, g, rng, rng.choice([501, 640, 2002, 5001]))
     lap("key-sets")
     # 3a. more than 2^16 cells
     for _ in range(3 if thorough else 1):
@@ -1730,6 +1910,12 @@ def replay(run, payload, _drv=None):
         check_cartesian(run, drv, pend, g, partition, pf, 2e7)
     if case.get("check") == "session" and "ops" in case:
         check_session(run, drv, pend, g, None, 0, ops=case["ops"])
+        if not _drv:
+            flush(run, drv, pend)
+        return
+    if case.get("check") == "long":
+        import random as _random
+        check_long_arrays(run, drv, pend, g, None, int(case.get("n", 501)), seed=int(case.get("seed", 0)))
         if not _drv:
             flush(run, drv, pend)
         return
